@@ -94,6 +94,18 @@ func runC03(c *Ctx, faults bool) {
 		"lfs.transfer.batchsize":  batchSize,
 		"lfs.concurrenttransfers": []string{"3", "1", "8"}[t.Choose(3, "concurrency")],
 	})
+	// fetch filters configured in the pushing clone say nothing about what a push uploads
+	switch t.Choose(6, "fetch-filter-in-pushing-clone") {
+	case 1:
+		w.MustGit(u1, "config", "lfs.fetchexclude", "dir")
+		c.Probe("fetch-filter-in-pushing-clone")
+	case 2:
+		w.MustGit(u1, "config", "lfs.fetchexclude", "*.dat")
+		w.MustGit(u1, "config", "lfs.fetchinclude", "dir")
+		c.Probe("fetch-filter-in-pushing-clone")
+	}
+	// the retry budget varies (with 1, a single failure exhausts an object)
+	w.MustGit(u1, "config", "lfs.transfer.maxretries", []string{"2", "1", "8"}[t.Choose(3, "maxretries")])
 	if t.Bool(1, 4, "second-remote") {
 		remote2 = w.InitBare("remote2.git")
 		w.MustGit(u1, "remote", "add", "second", remote2)
